@@ -17,7 +17,7 @@ RULE = ("exhaustive: 1..4 caches x every hit/miss assignment per cache (multi-ke
         "to and including the first that answers, none after it; result is that cache's answer (all-miss: a "
         "miss-shaped value); a write is exactly one call on cache 0 carrying the caller's arguments (real back-end: "
         "the command received by server 0 equals the one a plain Client sends; other servers receive nothing). "
-        "Non-trivial: >=2 caches and the first hit is not in cache 0, or a write.")
+        "Hit values include falsy ones (b'', 0, '', False, [], {}): a hit is a hit whatever its value. Non-trivial: >=2 caches and the first hit is not in cache 0, or a hit carries a falsy value, or a write.")
 MANIFEST = {
     "category": "exploration",
     "technique": "bounded-exhaustive enumeration of cache states and operations against a call-log oracle (scripted caches) and a differential oracle (real Clients over a fake network vs. a plain Client)",
@@ -31,20 +31,24 @@ ASSUMPTIONS = [
 ]
 
 K1, K2 = "k1", "k2"
+FALSY = [None, b"", 0, "", False, [], {}]     # index 0 = an ordinary truthy value
 
 
 class Scripted:
     """Recording cache with the real Client's method signatures."""
 
-    def __init__(self, idx, present, log):
+    def __init__(self, idx, present, log, vkind=0):
         self.idx = idx
         self.present = present      # set of keys present
         self.log = log
+        self.vkind = vkind          # which kind of value a hit carries (falsy values are hits too)
 
     def _rec(self, name, **bound):
         self.log.append((self.idx, name, bound))
 
     def _val(self, k):
+        if self.vkind:
+            return FALSY[self.vkind]
         return ("v", self.idx, k)
 
     def get(self, key, default=None):
@@ -130,10 +134,11 @@ def _is_miss(op, r):
 
 
 def check_read(case):
-    op, states = case           # states: tuple per cache of tuple of present keys
+    op, states = case[0], case[1]           # states: tuple per cache of tuple of present keys
+    vkinds = case[2] if len(case) > 2 else (0,) * len(states)
     n = len(states)
     log = []
-    caches = [Scripted(i, set(st), log) for i, st in enumerate(states)]
+    caches = [Scripted(i, set(st), log, vk) for i, (st, vk) in enumerate(zip(states, vkinds))]
     fc = FallbackClient(caches)
     keys = [K1, K2]
     try:
@@ -149,7 +154,7 @@ def check_read(case):
         answering = next((i for i, st in enumerate(states) if st), None)
     consulted = [i for i, name, _ in log]
     want = list(range(n if answering is None else answering + 1))
-    desc = "%s with cache states %r" % (op, states)
+    desc = "%s with cache states %r" % (op, states) + (" hit values %r" % ([FALSY[v] if v else "truthy" for v in vkinds],) if any(vkinds) else "")
     if any(name != op for _, name, _ in log):
         raise Violation(["read-wrong-method", op], "%s: called %r" % (desc, [x[1] for x in log]))
     if consulted != want:
@@ -174,7 +179,7 @@ def check_read(case):
             exp = {k: (c._val(k), b"%d" % (100 + answering)) for k in keys if k in c.present}
         if r != exp:
             raise Violation(["read-result", op], "%s returned %r, expected cache %d's answer %r" % (desc, r, answering, exp))
-    return (n >= 2 and answering not in (0,)), ["read", op, "n=%d" % n,
+    return (n >= 2 and answering not in (0,)) or any(vkinds), ["read", op, "n=%d" % n,
                                                  "answer=" + ("none" if answering is None else str(answering))]
 
 
@@ -186,6 +191,16 @@ def read_cases(tier, seed):
         for st in itertools.product([(), (K1,), (K2,), (K1, K2)], repeat=n):
             for op in ("get_many", "gets_many"):
                 yield (op, st)
+    # hits whose value is falsy (b"", 0, "", False, [], {}) are hits: no fall-through past them
+    for n in (1, 2, 3):
+        for st in itertools.product([(), (K1,)], repeat=n):
+            if not any(st):
+                continue
+            for vk in itertools.product(range(len(FALSY)), repeat=n):
+                if not any(v and s_ for v, s_ in zip(vk, st)):
+                    continue
+                for op in ("get", "gets", "get_many", "gets_many"):
+                    yield (op, st, vk)
 
 
 # ---- writes ----------------------------------------------------------------
